@@ -20,7 +20,7 @@ SPINS = ['sp_while', 'sp_for', 'sp_dowhile', 'sp_foreach', 'sp_foreach_map', 'sp
          'rc_direct', 'rc_mut_a', 'rc_fp', 'rc_filter', 'rc_map', 'rc_sort', 'rc_unique', 'rc_callother', 'rc_catch', 'rc_catch2', 'sp_catchdiv', 'sp_catcherr', 'sp_catchthrow', 'sp_catchidx', 'sp_catchdest', 'rc_catcherr', 'rc_aggr', 'rc_aggr', 'rc_aggrs', 'rc_args', 'rc_fpargs', 'rc_spread', 'rc_efunfp']
 BUILDS = ['str+=', 'str+', 'gstr+=', 'sprintf', 'repeat', 'replace', 'implode', 'arr+=', 'arr+', 'garr+=', 'allocate', 'explode', 'map+', 'mapins',
           'gmapins', 'allocmap', 'allocbuf', 'buf+', 'copy', 'keys', 'strrange', 'arrrange', 'bufrange', 'gstrrange', 'replace5', 'replace1', 'spad', 'spadr',
-          'scol', 'imparr', 'strslice', 'mapmul', 'replace_end', 'replace_mid']
+          'scol', 'imparr', 'strslice', 'mapmul', 'replace_end', 'replace_mid', 'savevar', 'savevar2']
 
 
 def gen(rng, tier, i):
@@ -149,7 +149,7 @@ def _limit_for(kind, fld, lim):
     if fld == 'ga': return lim.get('MaxArraySize')
     if fld == 'gm': return lim.get('MaxMappingSize')
     if fld == 'size':
-        if kind in ('str+=', 'str+', 'gstr+=', 'sprintf', 'repeat', 'replace', 'implode'): return lim.get('MaxStringLength')
+        if kind in ('str+=', 'str+', 'gstr+=', 'sprintf', 'repeat', 'replace', 'implode', 'savevar', 'savevar2'): return lim.get('MaxStringLength')
         if kind in ('arr+=', 'arr+', 'garr+=', 'allocate', 'explode', 'copy', 'keys'): return lim.get('MaxArraySize')
         if kind in ('map+', 'mapins', 'gmapins', 'allocmap'): return lim.get('MaxMappingSize')
         if kind in ('allocbuf', 'buf+'): return lim.get('MaxBufferSize')
